@@ -86,7 +86,7 @@ func c11Check(c timed.Cfg) func(o *obs.Obs) string {
 			return fmt.Sprintf("%s/stuck|consumer script has %d receives, got %v", tag, len(c.ConsGaps), got)
 		}
 		if c.Kind == "emit" && o.Sim {
-			f := int64(c.Freq)
+			f := max(int64(c.Freq), 0) // a frequency below zero is no pacing at all, like zero
 			// the function is called at most once per tick: call i not before (i+1) ticks, consecutive calls >= f apart
 			calls := o.Logs["call"]
 			for j, e := range calls {
@@ -172,6 +172,16 @@ func c11Scenarios(tier string) []e1lib.Scenario {
 				add(timed.Cfg{Kind: "unfold", Cap: cp, Step: "inc", ConsGaps: gaps, CancelAt: -1, Drain: true})
 				add(timed.Cfg{Kind: "emit", Cap: cp, Freq: 1, Mode: "pure", ConsGaps: gaps, CancelAt: -1, Drain: true})
 				add(timed.Cfg{Kind: "emit", Cap: cp, Freq: 1, Mode: "try", Mask: 0b0110, ConsGaps: gaps, CancelAt: -1, Drain: true})
+			}
+		}
+	}
+	// a frequency of zero (or below): "no pacing" - the generator still produces every index, in order, as fast as it is consumed
+	for cp := 0; cp <= 1; cp++ {
+		for _, f := range []int{0, -1} {
+			for _, gaps := range [][]int{{0}, {0, 0, 0}, {0, 2, 0}, {2, 2}} {
+				add(timed.Cfg{Kind: "emit", Cap: cp, Freq: f, Mode: "pure", ConsGaps: gaps, CancelAt: -1})
+				add(timed.Cfg{Kind: "emit", Cap: cp, Freq: f, Mode: "try", Mask: 0b0101, ConsGaps: gaps, CancelAt: -1})
+				add(timed.Cfg{Kind: "emit", Cap: cp, Freq: f, Mode: "pure", ConsGaps: gaps, CancelAt: 2})
 			}
 		}
 	}
